@@ -485,6 +485,31 @@ func genSpecs(r *rand.Rand, thorough bool) []*Spec {
 		s.K = 4 + r.Intn(12)
 		out = append(out, s)
 	}
+	// several subscription periods on ONE subscriber transport object
+	nResub := 12
+	if thorough {
+		nResub = 90
+	}
+	for i := 0; i < nResub; i++ {
+		s := &Spec{Idx: len(out), Seed: r.Int63(), Mode: "resub", QueueLen: 1 + r.Intn(64), Proto: rig.Protocols[i%3], User: genUser(r),
+			Op: []string{"Sent", "Num", "Ping", "UserEvents"}[r.Intn(4)], N: 5 + r.Intn(40), K: 3 + r.Intn(20), Periods: 2 + r.Intn(3)}
+		if i%2 == 0 {
+			s.Broker, s.Factory, s.Workers = "stomp", "builder", 1
+			if r.Intn(3) == 0 {
+				s.StompPrefix = "pre."
+			}
+		} else {
+			c := natsCfg[(i/2)%len(natsCfg)]
+			s.Broker, s.Factory, s.Workers = "nats", c.f, c.w
+		}
+		if r.Intn(2) == 0 {
+			s.Kinds = []string{pick(r, malformedKinds)}
+		}
+		if r.Intn(3) == 0 {
+			s.DelayUs = 100 + r.Intn(900)
+		}
+		out = append(out, s)
+	}
 	// the ordinary two-subscriber sequences (malformed / foreign / Unsubscribe)
 	// on topics of that family
 	nNestedSeq := 6
